@@ -18,8 +18,19 @@ use std::collections::BTreeMap;
 pub enum COp {
     /// insert node object `oid` (oid < n: the original with key oid; oid >= n: a
     /// distinct edge-less node object whose key is dup_keys[oid - n])
-    Insert { oid: usize },
-    Remove { k: usize },
+    /// `sole`: the harness gives its only handle away (`g.insert(Node::new(..))` style) and
+    /// afterwards reaches the node through the container
+    Insert {
+        oid: usize,
+        #[serde(default)]
+        sole: bool,
+    },
+    /// `sole`: at the moment of the call the container holds the only handle of the node
+    Remove {
+        k: usize,
+        #[serde(default)]
+        sole: bool,
+    },
     Get { k: usize },
     Index { k: usize },
     Contains { k: usize },
@@ -141,11 +152,24 @@ fn step<F: Flavour>(st: &mut St<F>, op: &COp, stats: &mut Stats) -> Result<(), (
     let fail = |class: &str, msg: String| Err((class.to_string(), msg));
     let member_ids = |st: &St<F>| -> Vec<(usize, u64)> { st.members.iter().map(|(k, oid)| (*k, F::vid(st.obj(*oid)))).collect() };
     match op {
-        COp::Insert { oid } => {
-            let node = st.obj(*oid).clone();
-            let key = F::key(&node);
+        COp::Insert { oid, sole } => {
+            let key = F::key(st.obj(*oid));
             let present = st.members.contains_key(&key);
+            let sole = *sole && !present && *oid < st.n();
+            let node = if sole {
+                // hand over the only handle; it is fetched back from the container below
+                stats.inc("probe_insert_of_sole_handle");
+                std::mem::replace(&mut st.world.nodes[*oid], F::node_new(key, NVal::new(0, 999_999)))
+            } else {
+                st.obj(*oid).clone()
+            };
             let r = F::g_insert(st.world.graph.as_mut().unwrap(), node);
+            if sole {
+                match F::g_get(st.g(), key) {
+                    Some(n) => st.world.nodes[*oid] = n,
+                    None => return fail("map:insert", format!("node {key} inserted by value cannot be fetched back")),
+                }
+            }
             if r == present {
                 return fail("map:insert", format!("insert of key {key} returned {r} while the key was {}present", if present { "" } else { "not " }));
             }
@@ -160,12 +184,33 @@ fn step<F: Flavour>(st: &mut St<F>, op: &COp, stats: &mut Stats) -> Result<(), (
             if got != want {
                 return fail("map:insert", format!("after insert of key {key} the member has value id {got:?}, expected {want:?} (the first inserted node must be kept)"));
             }
+            if let Err(m) = st.world.compare_with(&st.model) {
+                return fail("map:insert", format!("insert of key {key} changed the edges: {m}"));
+            }
         }
-        COp::Remove { k } => {
-            let r = F::g_remove(st.world.graph.as_mut().unwrap(), *k).map(|n| F::vid(&n));
+        COp::Remove { k, sole } => {
+            let sole = *sole && st.members.get(k) == Some(k);
+            if sole {
+                // drop the harness's own handle first: the container holds the only one
+                stats.inc("probe_remove_while_container_holds_only_handle");
+                let own = std::mem::replace(&mut st.world.nodes[*k], F::node_new(*k, NVal::new(0, 999_999)));
+                drop(own);
+            }
+            let removed = F::g_remove(st.world.graph.as_mut().unwrap(), *k);
+            let r = removed.as_ref().map(|n| F::vid(n));
+            if sole {
+                match removed {
+                    Some(n) => st.world.nodes[*k] = n,
+                    None => return fail("map:remove", format!("remove({k}) of a member returned None")),
+                }
+            }
             let want = st.members.remove(k).map(|oid| F::vid(st.obj(oid)));
             if r != want {
                 return fail("map:remove", format!("remove({k}) returned node value id {r:?}, map model says {want:?}"));
+            }
+            // removing a member changes membership only: its edges are untouched
+            if let Err(m) = st.world.compare_with(&st.model) {
+                return fail("map:remove", format!("remove({k}) changed the edges: {m}"));
             }
         }
         COp::Get { k } => {
@@ -436,9 +481,9 @@ impl Engine for Container {
             let op = match rng.below(100) {
                 0..=21 => {
                     let oid = if rng.chance(1, 5) { n + rng.below(dup_keys.len()) } else { rng.below(n) };
-                    COp::Insert { oid }
+                    COp::Insert { oid, sole: rng.chance(1, 3) }
                 }
-                22..=29 => COp::Remove { k },
+                22..=29 => COp::Remove { k, sole: rng.chance(1, 2) },
                 30..=35 => COp::Get { k },
                 36..=40 => COp::Index { k },
                 41..=44 => COp::Contains { k },
@@ -462,7 +507,7 @@ impl Engine for Container {
                     COp::Edge(op)
                 }
             };
-            if let COp::Insert { oid } = &op {
+            if let COp::Insert { oid, .. } = &op {
                 members.insert(*oid);
             }
             ops.push(op);
@@ -509,8 +554,8 @@ impl Engine for Container {
             let used = sc.initial.iter().any(|(u, v, _)| *u == k || *v == k)
                 || sc.dup_keys.contains(&k)
                 || sc.ops.iter().any(|o| match o {
-                    COp::Insert { oid } => *oid >= k,
-                    COp::Remove { k: x } | COp::Get { k: x } | COp::Index { k: x } | COp::Contains { k: x } => *x == k,
+                    COp::Insert { oid, .. } => *oid >= k,
+                    COp::Remove { k: x, .. } | COp::Get { k: x } | COp::Index { k: x } | COp::Contains { k: x } => *x == k,
                     COp::Edge(op) => gen::remap_op(op, k).is_none(),
                     _ => false,
                 });
